@@ -30,7 +30,7 @@ CHECKS = {
                 note='polynomial backtracking and the wall-clock sentence are outside the claim'),
     'C17': dict(level=MC, engine='E2 py2smt', design='3/C17',
                 technique='AST->SMT translation of StatementSplitter unrolled over symbolic token sequences in lock-step with a strict push-down recogniser of the procedural grammar (z3 QF_BV, partitioned over 16 cores)',
-                text='for every token sequence of <= 18/28 tokens that is a script of G_proc the translated splitter puts every significant token into the statement the grammar says; six genuine defects are listed as known findings, each re-confirmed on its example and excluded by a signature predicate so that any other violation is still reported.',
+                text='for every token sequence of <= 18/26 tokens that is a script of G_proc the translated splitter puts every significant token into the statement the grammar says; six genuine defects are listed as known findings, each re-confirmed on its example and excluded by a signature predicate so that any other violation is still reported.',
                 note='reference grammar G_proc (vf/refsplit.py) trusted; Theta alphabet computed from the real lexer each run'),
 }
 
